@@ -457,11 +457,11 @@ class FetchAtt:
         """
         msg_text = self._body(msg, section)
 
-        # We need to always terminate with crlf.
+        # We need to always terminate with crlf. (Unless there is nothing to
+        # terminate: the TEXT of a message that has no body is empty.)
         #
-        msg_text = (
-            msg_text if msg_text.endswith(b"\r\n") else msg_text + b"\r\n"
-        )
+        if msg_text and not msg_text.endswith(b"\r\n"):
+            msg_text = msg_text + b"\r\n"
 
         # If this is a partial only return the bits asked for.
         #
